@@ -40,7 +40,8 @@ def cases(enc):
     noargs = st.fixed_dictionaries({
         "enc": st.just("PDS3"), "cfg": st.just({}),
         "spec": gv.modules("PDS3"), "noargs": st.just(True)})
-    return st.one_of(base, base, base, noargs)
+    # (one_of() drops repeated strategy objects, so weight explicitly)
+    return st.integers(0, 5).flatmap(lambda i: noargs if i == 0 else base)
 
 
 def run_case(case):
@@ -82,7 +83,7 @@ def random_cases(acc, enc, n, seed):
     @settings(max_examples=n, database=None, deadline=None,
               phases=[Phase.generate],
               suppress_health_check=list(HealthCheck))
-    @given(cases(enc))
+    @given(st.sampled_from(list(ENCODERS)).flatmap(cases))
     def body(case):
         if acc.expired():
             acc.notes["budget_exhausted"] = 1
@@ -111,10 +112,14 @@ def random_cases(acc, enc, n, seed):
     body()
 
 
+def temporal_grid(acc):
+    c01.temporal_grid(acc, run=run_case, prop="C02")
+
+
 def shards(tier, seed):
     n = 300 if tier == "quick" else 9000
     return [("random_cases", dict(enc=ENCODERS[j % 4], n=n, seed=seed * 1000 + j))
-            for j in range(16)]
+            for j in range(16)] + [("temporal_grid", {})]
 
 
 def replay(case):
